@@ -792,3 +792,6 @@ def check(ctx):
     r7_skip_conditions(ctx)
     r8_framework_item_lookup_is_exact(ctx)
     r9_template_names_unmodified(ctx)
+
+
+CLAUSE += '; `==` / `!=` in the skip conditions compare reviewed types only; no discrimination of the edge kind treats an exclusive borrow as ordering-only'
